@@ -30,7 +30,7 @@ RULE = (
     "quadrant of est yaw, quadrant of gt yaw, |d| bucket)"
 )
 ASSUMPTIONS = ["roll and pitch <= 0.05 rad; for tilted boxes the yaw is convention dependent to second order, tolerance 2*tilt^2", "yaw-only boxes: weight tolerance 1e-9, error tolerance 1e-9"]
-DECIDING = ["TPMetricsAph.get_value.checked", "get_heading_error.checked", "C09.negative_yaw_ego_pairs", "C09.sign_checked", "C09.frame_checked", "C09.symmetry_checked", "C09.derived_checked"]
+DECIDING = ["TPMetricsAph.get_value.checked", "get_heading_error.checked", "C09.negative_yaw_ego_pairs", "C09.sign_checked", "C09.frame_checked", "C09.symmetry_checked", "C09.derived_checked", "C09.result_object_checked"]
 JOBS = {"quick": 2, "thorough": 14}
 
 
@@ -148,6 +148,13 @@ def one(ctx: Ctx, workload: str, idx: int, ye: float, yg: float, ego_yaws, roll:
         ctx.check(close(weight(e, g), base, tol, 0), "C09/aph_weight_depends_on_quaternion_sign", dict(est_yaw=ye, gt_yaw=yg, neg=(ne, ng), a=base, b=weight(e, g)), "TPMetricsAph.get_value")
         he = e.get_heading_error(g)
         ctx.check(close(abs(he[2]), d, tol, 0), "C09/yaw_error_depends_on_quaternion_sign", dict(est_yaw=ye, gt_yaw=yg, neg=(ne, ng), err=he[2], d=d), "get_heading_error")
+    # the error a result object reports is that of its own pair (estimate against its ground truth)
+    from perception_eval.evaluation.result.object_result import DynamicObjectWithPerceptionResult
+
+    rep = DynamicObjectWithPerceptionResult(e0, g0).heading_error
+    own = e0.get_heading_error(g0)
+    ctx.count("C09.result_object_checked")
+    ctx.check(rep is not None and all(close(float(x), float(y), 1e-12, 0) for x, y in zip(rep, own)), "C09/result_object_reports_other_heading_error_than_its_pair", dict(est_yaw=ye, gt_yaw=yg, reported=None if rep is None else list(rep), pair=list(own)), "get_heading_error")
     # either order of the two objects
     h1, h2 = e0.get_heading_error(g0), g0.get_heading_error(e0)
     ctx.check(close(abs(h1[2]), abs(h2[2]), tol, 0), "C09/yaw_error_magnitude_depends_on_order", dict(est_yaw=ye, gt_yaw=yg, a=h1[2], b=h2[2]), "get_heading_error")
